@@ -369,7 +369,7 @@ class IndexedSet(MutableSet):
         "symmetric_difference_update(other) -> in-place XOR with other"
         if self is other:
             self.clear()
-        for val in other:
+        for val in IndexedSet(other):  # each distinct value once
             if val in self:
                 self.discard(val)
             else:
